@@ -71,7 +71,8 @@ def main():
             assert realize(inws) == (c in b" \r\n"), ("B6", c)
             n += 4
     # E4: sym & mask
-    masks = [0, 1, 0x3F, 0x7F, 0x80, 0x180, 0x400, 0x700, 0x800, 0xF00, 0xE0, 0x60, 0xFFFFF000, 0x00070006, 0xFFFFFFFF, 0x8000000000000000]
+    masks = [0, 1, 0x3F, 0x7F, 0x80, 0x180, 0x400, 0x700, 0x800, 0xF00, 0xE0, 0x60, 0xFFFFF000, 0x00070006, 0xFFFFFFFF, 0x8000000000000000,
+             ~0x00FF0000, ~0, ~1, ~0xFFF, -0x80000000]
     for v in ints[:40]:
         with standalone_statespace:
             for m in masks:
